@@ -107,6 +107,7 @@ func explore(args []string) {
 	mapOrder := fs.Bool("maporder", false, "explore map iteration orders")
 	threads := fs.Int("threads", 1, "max threads")
 	cpuprof := fs.String("cpuprofile", "", "write cpu profile")
+	switches := fs.Int("switches", 6, "pre-emption bound")
 	fs.Parse(args)
 	if *cpuprof != "" {
 		f, _ := os.Create(*cpuprof)
@@ -127,6 +128,7 @@ func explore(args []string) {
 		e.MaxPaths = *maxPaths
 	}
 	e.MaxThreads = *threads
+	e.MaxSwitches = *switches
 	f := e.FindFunc(*pkg, *fn)
 	if f == nil {
 		fmt.Fprintln(os.Stderr, "harness not found")
